@@ -565,7 +565,7 @@ def check_registration(chk, fi: FuncInfo, m: PairsModel, spec, distinct: bool = 
             for L in letters:
                 got = list(fold_for(repo, fi.module.name, s.names_iter, {s.res_var: _Res(L)}))
                 want = tables["BASE_ACCEPTORS"].get(L, []) + tables["RIBOSE_ACCEPTORS"] + tables["PHOSPHATE_ACCEPTORS"] + tables["BASE_DONORS"].get(L, [])
-                if sorted(got) != sorted(want):
+                if set(got) != set(want):  # multiplicity is the business of contact-distinct-points
                     diffs[L] = {"missing": sorted(set(want) - set(got)), "extra": sorted(set(got) - set(want))}
             chk.expect(not diffs, "contact-atoms", fi.site(rl), f"candidate atoms = base acceptors + ribose + phosphate acceptors + base donors of the residue's own base (evaluated for {', '.join(letters)})", f"the candidate atom list `{norm(s.names_iter)[:90]}` is not acceptors(base)+ribose+phosphate+donors(base) of the residue's one-letter name: {diffs}", K(fi, "atoms"), found=diffs)
         except Exception as ex:
